@@ -5,7 +5,8 @@
  *           listings are logged as "- openr <path>" / "- opendir <path>" (not numbered).
  *  faults:  the RQ_FAIL_AT-th mutating call returns -1 with errno RQ_FAIL_ERRNO (default EIO) without being
  *           executed; the RQ_SHORT_AT-th mutating call, if it is a write of more than one byte, writes only
- *           half of it (a legal short write).
+ *           half of it (a legal short write). The RQ_FAIL_READDIR-th reading of a directory entry fails the same way
+ *           (those calls are logged as "- readdir <path>", not numbered among the mutating ones).
  */
 #define _GNU_SOURCE
 #include <dlfcn.h>
@@ -23,6 +24,7 @@
 
 static int logfd = -1, fail_at = -1, fail_errno = EIO, short_at = -1, inited = 0;
 static int counter = 0;
+static int fail_readdir = -1, readdir_counter = 0;
 
 static void init(void) {
     if (inited) return;
@@ -36,6 +38,7 @@ static void init(void) {
     if ((f = getenv("RQ_FAIL_AT"))) fail_at = atoi(f);
     if ((f = getenv("RQ_FAIL_ERRNO"))) fail_errno = atoi(f);
     if ((f = getenv("RQ_SHORT_AT"))) short_at = atoi(f);
+    if ((f = getenv("RQ_FAIL_READDIR"))) fail_readdir = atoi(f);
 }
 
 static void emit(int n, const char *op, const char *path, int fault) {
@@ -150,3 +153,20 @@ int linkat(int da, const char *a, int db, const char *b, int f) { int (*r)(int, 
 int symlink(const char *a, const char *b) { int (*r)(const char *, const char *) = dlsym(RTLD_NEXT, "symlink"); FAIL_IF(hit("symlink", b, 0)); return r(a, b); }
 int symlinkat(const char *a, int d, const char *b) { int (*r)(const char *, int, const char *) = dlsym(RTLD_NEXT, "symlinkat"); FAIL_IF(hit("symlink", b, 0)); return r(a, d, b); }
 int utimensat(int d, const char *p, const struct timespec t[2], int f) { int (*r)(int, const char *, const struct timespec *, int) = dlsym(RTLD_NEXT, "utimensat"); char b[8300]; FAIL_IF(hit("utimes", atpath(d, p, b, sizeof b), 0)); return r(d, p, t, f); }
+
+/* reading a directory: not a mutating call, but one whose failure must not pass for "the directory is not empty" */
+#define READDIR_BODY(NAME, TYPE) \
+    TYPE *(*r)(DIR *) = dlsym(RTLD_NEXT, NAME); \
+    init(); \
+    char t[4096]; \
+    int c = __sync_add_and_fetch(&readdir_counter, 1); \
+    if (logfd >= 0) { \
+        char b[4400]; \
+        int len = snprintf(b, sizeof b, "- readdir %s%s\n", fdpath(dirfd(d), t, sizeof t), c == fail_readdir ? " FAULT" : ""); \
+        ssize_t (*rw)(int, const void *, size_t) = dlsym(RTLD_NEXT, "write"); \
+        if (len > 0) rw(logfd, b, len); \
+    } \
+    if (c == fail_readdir) { errno = fail_errno; return NULL; } \
+    return r(d);
+struct dirent *readdir(DIR *d) { READDIR_BODY("readdir", struct dirent) }
+struct dirent64 *readdir64(DIR *d) { READDIR_BODY("readdir64", struct dirent64) }
